@@ -648,6 +648,11 @@ func c05Program(p *prog, steps int) {
 		case op < 45: // observers with arbitrary arguments
 			c05Observe(p, l)
 		case op < 53: // Delete
+			if r.Chance(1, 15) {
+				// no index at all: nothing to delete, the list stays as it is
+				p.step("Delete", fmt.Sprintf("%s.Delete() [no index, n=%d]", l.Name(), n), false, func() { l.List().Delete() })
+				break
+			}
 			if n >= 3 && r.Chance(1, 3) {
 				perm := r.Perm(n)
 				k := r.Range(2, 3)
